@@ -271,6 +271,14 @@ def gen_fault(rng, fault=None, tail=None):
         inj = [("pq", 1, 0, 3)]
     else:
         inj = [("se", ("a", 0), 0, 0, 3, None, None), ("se", ("r", 5), 0, 0, 4, None, 0)]
+    if rng.random() < 0.4:
+        # attribution inside hierarchies: the faulty model owns sub-models / is a sub-model
+        extra = {"cap": 4, "handlers": [[]], "repliers": [([], 5)], "parent": 0, "named": rng.random() < 0.8}
+        case["models"].append(extra)
+        if rng.random() < 0.5:
+            case["models"].append({"cap": 4, "handlers": [[], [("pan", 8)]], "repliers": [([], 5)], "parent": 2})
+            if fault == "panic":
+                inj = [("pe", 3, 1, 3)]
     if tail is None:
         calls = [("st",), ("su", ("r", 10)), ("su", ("a", 500)), ("pe", 0, 0, 11), ("pq", 0, 1, 12), ("ps", 1, 13),
                  ("su", ("a", 0))]
@@ -393,3 +401,129 @@ def partition_cmds(rng, horizon, cancels, kind):
             if c == stop:
                 cmds.append(("cn", slot))
     return cmds
+
+
+def gen_net(rng, hier=False, cyc=False):
+    """Message-passing family (C02/C03/C04/C06/C16): 2-5 models, DAG sends/queries (i -> j > i), plain /
+    map / filter_map connections to models and a big sink, bursts of 1..3 x capacity messages, capacities
+    1..16, optional hierarchy (sub-models, ids in pre-order, some unnamed) and init scripts; no handler
+    schedules anything (so the sent/processed accounting of the oracles is exact)."""
+    n = rng.randint(2, 5)
+    models = []
+    for i in range(n):
+        later = list(range(i + 1, n))
+        outs, reqs = [], []
+        for _ in range(rng.randint(1, 2)):
+            conns = []
+            for _ in range(rng.randint(1, 3)):
+                keep = rng.choice(["all", "all", "even", ("lt", rng.choice([50, 500]))])
+                add = rng.choice([0, 0, 1, 1000])
+                if later and rng.random() < 0.8:
+                    conns.append((keep, add, ("m", rng.choice(later), rng.randrange(3))))
+                else:
+                    conns.append((keep, add, ("s", 0)))
+            outs.append(conns)
+        if later and rng.random() < 0.6:
+            reqs.append([(rng.choice(["all", "all", "even"]), rng.choice([0, 1]), rng.choice(later), rng.randrange(2),
+                          rng.choice([0, 5])) for _ in range(rng.randint(1, 3))])
+        hs = []
+        for inp in range(3):
+            ops = []
+            for _ in range(rng.randint(0, 3)):
+                r = rng.random()
+                if r < 0.7 and outs:
+                    ops.append(("snd", rng.randrange(len(outs)), rng.choice(["in", ("ip", 1), ("ip", 2)])))
+                elif reqs:
+                    ops.append(("qry", 0, rng.choice(["in", ("ip", 1)])))
+            hs.append(ops)
+        reps = [([("snd", 0, "in")] if outs and rng.random() < 0.3 else [], rng.choice([0, 7])) for _ in range(2)]
+        init = [("snd", rng.randrange(len(outs)), ("c", 40 + i))] if (outs and rng.random() < 0.4) else []
+        models.append({"cap": rng.choice([1, 1, 2, 3, 4, 16]), "handlers": hs, "repliers": reps, "outs": outs,
+                       "reqs": reqs, "init": init})
+    if hier:
+        # ids are in pre-order: the parent of i is some j < i on the current path
+        path = [0]
+        for i in range(1, n):
+            if rng.random() < 0.6:
+                k = rng.randrange(len(path))
+                models[i]["parent"] = path[k]
+                path = path[:k + 1] + [i]
+            else:
+                path = [i]
+            if rng.random() < 0.25:
+                models[i]["named"] = False
+    case = {"models": models, "sinks": [("buf", 4096)], "mode": "multiset", "tags": {"net"}, "threads": 1, "t0": 0,
+            "clock": [], "sources": [[(rng.choice(["all", "even"]), rng.choice([0, 3]), ("m", rng.randrange(n), rng.randrange(3)))
+                                      for _ in range(rng.randint(1, 3))]]}
+    cmds, val = [], 0
+    horizon = 0
+    for _ in range(rng.randint(2, 8)):
+        r = rng.random()
+        if r < 0.5:
+            # burst into one model: 1..3 x capacity messages
+            m = rng.randrange(n)
+            k = rng.randint(1, 3 * models[m]["cap"])
+            t = horizon + 10
+            for _ in range(min(k, 12)):
+                val += 2
+                cmds.append(("se", ("a", t), m, rng.randrange(3), val + rng.randrange(2), None, None))
+            cmds.append(("st",)); horizon = t
+        elif r < 0.7:
+            val += 2
+            cmds.append(("pe", rng.randrange(n), rng.randrange(3), val + rng.randrange(2)))
+        elif r < 0.8:
+            val += 2
+            cmds.append(("pq", rng.randrange(n), rng.randrange(2), val))
+        elif r < 0.9:
+            val += 2
+            cmds.append(("ps", 0, val))
+        else:
+            val += 2
+            cmds.append(("ss", ("a", horizon + 10), 0, val, None, None)); cmds.append(("st",)); horizon += 10
+    cmds.append(("rs", 0))
+    case["cmds"] = cmds
+    return case
+
+
+def gen_deadlock(rng):
+    """C06 family: query loop-backs (direct, transitive, in sub-models), saturating event loops that
+    deadlock deterministically (a model that sends itself capacity+1 events from one handler), orphan
+    and dropped mailboxes."""
+    kind_ = rng.choice(["self_query", "transitive_query", "sub_query", "self_saturate", "orphan", "orphan_query", "clean"])
+    cap = rng.choice([1, 2, 3])
+    mk = lambda **kw: dict({"cap": cap, "handlers": [[], [], []], "repliers": [([], 1), ([], 2)], "outs": [], "reqs": []}, **kw)
+    models = [mk(), mk(), mk()]
+    roots = []
+    if kind_ == "self_query":
+        models[0]["reqs"] = [[("all", 0, 0, 0, 0)]]; models[0]["handlers"][1] = [("qry", 0, "in")]
+        roots = [("pe", 0, 1, 5)]
+    elif kind_ == "transitive_query":
+        models[0]["reqs"] = [[("all", 0, 1, 0, 0)]]; models[0]["handlers"][1] = [("qry", 0, "in")]
+        models[1]["reqs"] = [[("all", 0, 2, 0, 0)]]; models[1]["repliers"][0] = ([("qry", 0, "in")], 1)
+        models[2]["reqs"] = [[("all", 0, 0, 1, 0)]]; models[2]["repliers"][0] = ([("qry", 0, "in")], 1)
+        roots = [("pe", 0, 1, 5)]
+    elif kind_ == "sub_query":
+        models[1]["parent"] = 0; models[2]["parent"] = 1
+        models[1]["named"] = rng.random() < 0.7
+        v = rng.choice([1, 2])
+        models[v]["reqs"] = [[("all", 0, v, 0, 0)]]; models[v]["handlers"][1] = [("qry", 0, "in")]
+        roots = [("pe", v, 1, 5)]
+    elif kind_ == "self_saturate":
+        models[0]["outs"] = [[("all", 0, ("m", 0, 0))]]
+        models[0]["handlers"][1] = [("snd", 0, "in")] * (cap + 1)
+        roots = [("pe", 0, 1, 5)]
+    elif kind_ == "orphan":
+        models[2]["place"] = 1
+        models[0]["outs"] = [[("all", 0, ("m", 2, 0))]]; models[0]["handlers"][1] = [("snd", 0, "in")] * rng.randint(1, cap)
+        roots = [("pe", 0, 1, 5)]
+    elif kind_ == "orphan_query":
+        models[2]["place"] = 1
+        roots = [("pq", 2, 0, 5)]
+    else:
+        models[0]["outs"] = [[("all", 0, ("m", 1, 0)), ("even", 1, ("m", 2, 0))]]
+        models[0]["handlers"][1] = [("snd", 0, "in"), ("snd", 0, ("ip", 1))]
+        roots = [("pe", 0, 1, 4), ("pe", 0, 1, 7)]
+    case = {"models": models, "sinks": [], "mode": "multiset", "tags": {"deadlock", kind_}, "t0": 0, "clock": [], "sources": []}
+    pre = [("pe", 1, 0, 1)] if rng.random() < 0.5 else []
+    case["cmds"] = pre + roots + [("st",), ("pe", 0, 0, 9)]
+    return case
